@@ -44,6 +44,10 @@ StartWhyG(pl, st, c, t, useG) ==
        THEN "C04:started before a dependency exited"
   ELSE IF \E j \in st.started : j[1] < c /\ j \notin st.ended
        THEN "C04:started before the previous command finished"
+  \* ... which includes executables of an earlier command that have not even started yet (commands out of order)
+  ELSE IF /\ \E j \in Tasks(pl) : j[1] < c /\ pl.kind[j] = "def" /\ j \notin st.ended
+          /\ ~\E j \in Tasks(pl) : j[1] < c /\ Failure(pl, st, j)
+       THEN "C04:started before an earlier command ran"
   ELSE IF pl.mode = "serial" /\ st.started # st.ended THEN "C05:explicit targets not run one at a time"
   ELSE IF ~useG THEN
        \* without the grouping: a failure in an earlier command, or of a (transitive) dependency, is still decisive
@@ -86,5 +90,21 @@ FinishWhy(pl, st, doc, failed, rc) ==
      ELSE IF failed # AnyFailure(pl, st) THEN "C06:failed flag does not match what happened"
      ELSE IF rc # (IF failed THEN 1 ELSE 0) THEN "C06:exit status does not match failed flag"
      ELSE ""
+(* The part of the above that needs neither the grouping nor a complete      *)
+(* document: is ONE listed entry truthful about its own process?  Used when  *)
+(* the result document is mis-shaped (a pair missing or listed twice), so    *)
+(* that a lie about a process is still reported as what it is (C06).         *)
+EntryWhy(pl, st, k, e) ==
+  LET kd == pl.kind[k] IN
+  IF e.status \notin Statuses THEN "C06:unknown status"
+  ELSE IF e.status = "success" /\ ~(k \in st.ended /\ st.code[k] = 0) THEN "C06:success reported for a process that did not exit 0"
+  ELSE IF e.status = "error" /\ e.code # -1 /\ ~(k \in st.ended /\ st.code[k] = e.code /\ e.code # 0)
+       THEN "C06:error code differs from the process exit code"
+  ELSE IF e.status = "error" /\ e.code = -1 /\ k \notin st.started THEN "C06:error reported for a process that never ran"
+  ELSE IF e.status = "undefined" /\ ~(kd = "undef" /\ k \notin st.started) THEN "C06:undefined reported wrongly"
+  ELSE IF e.status = "not_executable" /\ ~(kd = "noexec" /\ k \notin st.started) THEN "C06:not_executable reported wrongly"
+  ELSE IF e.status = "skipped" /\ k \in st.started THEN "C06:skipped reported for a process that ran"
+  ELSE IF ExitFail(st, k) /\ e.status # "error" THEN "C06:non-zero exit not reported as error"
+  ELSE ""
 FinishOK(pl, st, doc, failed, rc) == FinishWhy(pl, st, doc, failed, rc) = ""
 =============================================================================
